@@ -10,7 +10,7 @@ From Coq Require Import ZArith QArith Qcanon List Lia Bool.
 From Coq Require Import Reals.
 From Coquelicot Require Import Coquelicot.
 From RV Require Import Base.Num Base.Vec Mech.Spline Inst Proofs.QcInst Proofs.ListLemmas Proofs.SplineProofs
-     Proofs.SplineDer Proofs.DerProofs Proofs.SplineDerReal.
+     Proofs.SplineDer Proofs.SplineDerList Proofs.DerProofs Proofs.SplineDerReal.
 Import ListNotations.
 Local Open Scope nat_scope.
 
@@ -86,6 +86,19 @@ Proof.
   - intro i. rewrite cdb_shift. replace (S (j - 1)) with j by lia. reflexivity.
 Qed.
 Print Assumptions C17_spline_derivative_coefficients_exact.
+
+(* the same on the model's own list definitions: the derivative spline  spline_value (bspline_derivative c xi d)
+   evaluated with basis_values on its own knots clamped xi (d-1) at span j-1  is the derivative of the spline with
+   coefficients c (n = length xi - 1 + d of them) on the knots clamped xi d, at every x of a span j with d <= j < n *)
+Theorem C17_model_derivative_spline_exact :
+  forall (F : Type) (OF : Ops F), FieldLaws OF ->
+  forall (c xi : list F) (d' j : nat) (x : F),
+    length c = length xi - 1 + S d' -> 1 <= length xi -> S d' <= j -> j < length c ->
+    (forall a b, a <= j -> j < b -> knot_fun (clamped xi (S d')) b -! knot_fun (clamped xi (S d')) a <> o0) ->
+    sumf (fun i => nth i c o0 *! dcdb (knot_fun (clamped xi (S d'))) j x (S d') i) (length c)
+    = spline_value (bspline_derivative c xi (S d')) (basis_values (clamped xi d') d' (j - 1) x).
+Proof. intros F OF Fl c xi d' j x H1 H2 H3 H4 H5. exact (spline_derivative_lists Fl c xi d' j x H1 H2 H3 H4 H5). Qed.
+Print Assumptions C17_model_derivative_spline_exact.
 
 (* over the reals dcdb is the derivative: the spline with the coefficients of bspline_derivative is the
    analytic derivative of the spline at every x (as a polynomial of its span) *)
